@@ -61,7 +61,9 @@ class C15(Property):
             "at least one gene (gaps), a start found (trim); distinct by canonical input")
     TRUSTED = ["Biopython: Seq.reverse_complement (complement table regenerated from Bio.Data.IUPACData each run), "
                "SimpleLocation/CompoundLocation.extract (modelled as slice / reverse-complement / concatenation in "
-               "part order; the harness compares with the real extract on every record-derived case), Seq.translate",
+               "part order; the harness compares with the real extract on every record-derived case), Seq.translate "
+               "(modelled for ACGT codons with the forward table / stop codons regenerated from Bio.Data.CodonTable; "
+               "codons with ambiguity codes are left to Biopython and checked in Python only)",
                "str.upper() on ASCII input = per-character upper-casing",
                "Python % with a positive modulus = Int.emod; record_length > 0, direction in {1,-1}",
                "Record.get_cds_features_within_location is executed for real inside find_all_orfs; the model runs C08's "
@@ -468,7 +470,7 @@ class C15(Property):
         if area is not None:
             record.add_subregion(area)
             assert area.crosses_origin() == cross
-        out: Dict[str, Any] = {"parts": parts, "cross": cross,
+        out: Dict[str, Any] = {"parts": parts, "cross": cross, "table": int(record.transl_table),
                                "all_genes": [{"id": int(f.get_name()[1:]), "loc": common.location_json(f.location)}
                                              for f in record.get_cds_features()]}
         try:
@@ -535,7 +537,7 @@ class C15(Property):
             else:
                 area = {"c": True, "parts": [[lo, hi, 1] for lo, hi in spec]}
             return {"kind": kind, "rec": case["rec"], "minlen": case["minlen"], "pad": case["pad"],
-                    "genes": obs["all_genes"], "area": area,
+                    "genes": obs["all_genes"], "area": area, "table": obs["table"],
                     "impl": [f["loc"] for f in obs.get("features", [])]}
         if kind == "trim":
             if "seq" not in obs:
@@ -623,6 +625,9 @@ class C15(Property):
             return Judgement(False, True, detail=f"model predicts an assertion failure, implementation returned {feats}")
         canon = lambda items: sorted((_loc_key(i["loc"]), i["label"]) for i in items)  # noqa: E731
         corr = canon(feats) == canon(model) and lookup_ok
+        if corr:   # the modelled translation (null = ambiguity codes, left to Biopython) of every location
+            want = {_loc_key(m["loc"]): m["translation"] for m in model}
+            corr = all(want[_loc_key(f["loc"])] in (None, f["translation"]) for f in feats)
         detail = "" if corr else f"model {model} vs implementation {[(f['loc'], f['label']) for f in feats]}{lookup_note}"
         spec_ok = True
         for f in feats:
@@ -647,7 +652,8 @@ class C15(Property):
         tags = ("allorfs", "cross-origin" if obs["cross"] else ("whole" if case["area"] is None else "area"),
                 "wrapped" if any(f["loc"]["c"] for f in feats) else "unwrapped", f"orfs{min(len(feats), 4)}",
                 "nested-genes" if nested else "plain-genes",
-                "multi-exon-genes" if any(isinstance(g[0], list) for g in case["genes"]) else "one-exon-genes")
+                "multi-exon-genes" if any(isinstance(g[0], list) for g in case["genes"]) else "one-exon-genes",
+                "translation-modelled" if any(m["translation"] is not None for m in model) else "translation-python-only")
         return Judgement(corr, spec_ok, in_scope=scope, nontrivial=bool(feats), tags=tags, detail=detail)
 
     def judge_trim(self, case: Dict[str, Any], obs: Dict[str, Any], drv: Dict[str, Any]) -> Judgement:
